@@ -118,7 +118,7 @@ def INT_MAX : Int := 2147483647
 
 /-- the instants `datetime_tai` supports: the day number ⌊t/86400⌋ lies in `[INT_MIN + 11017, INT_MAX - 4]`
 (`day -= 11017` and `day + 4` are the two places where an `int` could overflow), i.e.
-`-185 541 635 318 400 ≤ t ≤ 185 542 586 841 599` (years −5 877 641 … 5 881 580). -/
+`-185 541 635 318 400 ≤ t ≤ 185 542 586 841 599` (years −5 877 611 … 5 881 580). -/
 def tLo : Int := (INT_MIN + 11017) * 86400
 def tHi : Int := (INT_MAX - 4) * 86400 + 86399
 def supported (t : Int) : Bool := tLo ≤ t && t ≤ tHi
@@ -174,9 +174,16 @@ leap years (1900, 2100, …) — `yday = (day < 306)` assumes the first year of 
 def ydayCode (y mon mday : Int) : Int :=
   ydaySpec y mon mday + (if mon ≥ 2 ∧ y % 100 = 0 ∧ y % 400 ≠ 0 then 1 else 0)
 
-/-! ### date822fmt -/
+/-! ### vocabulary for date822fmt's output -/
 
-def months : List Bytes := [[74, 97, 110], [70, 101, 98], [77, 97, 114], [65, 112, 114], [77, 97, 121], [74, 117, 110],
-  [74, 117, 108], [65, 117, 103], [83, 101, 112], [79, 99, 116], [78, 111, 118], [68, 101, 99]]
+/-- `bs` is the decimal numeral of `n`: ASCII digits, value `n`, no leading zero (except "0" itself) -/
+def isDecimal (n : Nat) (bs : Bytes) : Prop :=
+  bs ≠ [] ∧ (∀ b ∈ bs, isDigit b = true) ∧ decVal bs = n ∧ (bs.head? = some 48 → bs = [48])
+
+/-- ASCII digit of `k < 10` -/
+def digit (k : Nat) : Byte := UInt8.ofNat (48 + k)
+
+/-- two-digit field -/
+def two (n : Nat) : Bytes := [digit (n / 10), digit (n % 10)]
 
 end Nq.Datetime
